@@ -442,10 +442,13 @@ fn hostile_disk(w: &mut World, apps: &[App]) {
         "update_finish_time",
         "consecutive_failed_install_attempts",
     ];
-    let ints: [i64; 12] = [
+    let ints: [i64; 15] = [
         0,
         1,
         -1,
+        -999_999,
+        -1_000_001,
+        999_999,
         i64::MAX,
         i64::MIN,
         i64::MIN + 1,
@@ -847,11 +850,22 @@ fn run_life(world: &Shared, setup: &Setup, steps: &mut u64) -> LifeEnd {
                             if w.draws.chance(&format!("L{life}/consumer#{events_received}/storage"), touch) {
                                 w.stat("sched.observer_locks_storage");
                                 drop(w);
+                                // ... or into the shared app set
+                                let which = lock(world).draws.draw(&format!("L{life}/consumer#{events_received}/storage.which"), 2);
                                 let d = disk_rc.clone();
-                                let mut fut: LocalBoxFuture<'static, ()> = async move {
-                                    let _g = d.lock().await;
-                                }
-                                .boxed_local();
+                                let a = apps_rc.clone();
+                                let mut fut: LocalBoxFuture<'static, ()> = if which == 0 {
+                                    async move {
+                                        let _g = d.lock().await;
+                                    }
+                                    .boxed_local()
+                                } else {
+                                    lock(world).stat("sched.observer_locks_app_set");
+                                    async move {
+                                        let _g = a.lock().await;
+                                    }
+                                    .boxed_local()
+                                };
                                 consumer_flag.flag.store(false, Ordering::SeqCst);
                                 let waker = Waker::from(consumer_flag.clone());
                                 let mut cx = Context::from_waker(&waker);
